@@ -172,7 +172,11 @@ func (e *Env) eval(f string, req M) string {
 		return "ok:" + strconv.Itoa(n)
 	case "vm", "vnm":
 		height := parseH(fS(req, "height"))
-		path := commitmenttypes.NewMerklePath([]byte("ibc"), []byte(fS(req, "key")))
+		storeName := "ibc"
+		if sn, ok := req["store"].(string); ok {
+			storeName = sn
+		}
+		path := commitmenttypes.NewMerklePath([]byte(storeName), []byte(fS(req, "key")))
 		var err error
 		if f == "vm" {
 			err = e.K.VerifyMembership(ctx, fS(req, "cid"), height, fU(req, "delayT"), fU(req, "delayB"), fB(req, "rawProof"), path, fB(req, "value"))
@@ -257,6 +261,64 @@ func (e *Env) monitors(f string, req M, r string, before, after map[string]any, 
 			}
 		}
 	}
+	// C24: acceptance only when verified (ibc-go's own conditions + the library's verdict)
+	if f == "update" && (r == "updated" || r == "frozen") {
+		cid := fS(req, "cid")
+		e.acceptMonitor(cid, fM(req, "hdr"), req["valid"] == true, cb[cid], "header")
+	}
+	if f == "misb" && r == "frozen" {
+		cid := fS(req, "cid")
+		e.acceptMonitor(cid, fM(req, "h1"), req["v1"] == true, cb[cid], "misbehaviour header 1")
+		e.acceptMonitor(cid, fM(req, "h2"), req["v2"] == true, cb[cid], "misbehaviour header 2")
+		tp := int64(0)
+		if cs, ok := before[cid+"|cs"].(M); ok {
+			tp, _ = strconv.ParseInt(cs["tp"].(string), 10, 64)
+		}
+		for _, hk := range []string{"h1", "h2"} {
+			if c, ok := cb[cid][fS(fM(req, hk), "trusted")]; ok && now-tsOf(c) >= tp {
+				e.viol("C24", "misb-expired-trusted", "misbehaviour accepted against a trusted consensus state older than the trusting period", M{"client": cid, "header": hk})
+			}
+		}
+	}
+	// C25: parameter matching on recovery, custom fields on upgrade
+	if f == "recover" && r == "ok" {
+		a, aok := before[fS(req, "subject")+"|cs"].(M)
+		b, bok := before[fS(req, "substitute")+"|cs"].(M)
+		if aok && bok {
+			for _, k := range []string{"tlNum", "tlDen", "ub", "drift", "specs", "path"} {
+				if fmt.Sprint(a[k]) != fmt.Sprint(b[k]) {
+					e.viol("C25", "recover-mismatch", "recovery succeeded although a parameter that must match differs", M{"field": k, "subject": a[k], "substitute": b[k]})
+				}
+			}
+		}
+		if ac, ok := after[fS(req, "subject")+"|cs"].(M); ok && bok {
+			if ac["frozen"] != "0-0" || ac["latest"] != b["latest"] {
+				e.viol("C25", "recover-effect", "after recovery the subject is not unfrozen at the substitute's latest height", M{"after": ac})
+			}
+			if after[fS(req, "subject")+"|c|"+b["latest"].(string)] != before[fS(req, "substitute")+"|c|"+b["latest"].(string)] {
+				e.viol("C25", "recover-effect", "after recovery the subject does not hold the substitute's latest consensus state", nil)
+			}
+		}
+	}
+	if f == "upgrade" && r == "ok" {
+		cid := fS(req, "cid")
+		a, aok := before[cid+"|cs"].(M)
+		b, bok := after[cid+"|cs"].(M)
+		if aok && bok {
+			if a["tlNum"] != b["tlNum"] || a["tlDen"] != b["tlDen"] || a["drift"] != b["drift"] {
+				e.viol("C25", "upgrade-custom-fields", "upgrade changed the client's own trust level or clock drift", M{"before": a, "after": b})
+			}
+			lb, _ := parseHK(a["latest"].(string))
+			la, _ := parseHK(b["latest"].(string))
+			if !lb.less(la) {
+				e.viol("C25", "upgrade-height", "upgrade succeeded to a height that is not strictly greater", M{"before": a["latest"], "after": b["latest"]})
+			}
+		}
+		u := fM(req, "u")
+		if u["pcOK"] != true || u["psOK"] != true {
+			e.viol("C25", "upgrade-unproven", "upgrade succeeded although a proof of the upgraded client / consensus state does not verify", M{"pcOK": u["pcOK"], "psOK": u["psOK"]})
+		}
+	}
 	// C22: metadata consistency of every client store
 	for _, cid := range e.Clients {
 		e.checkMetaInv(cid, after, f)
@@ -339,6 +401,29 @@ func (e *Env) monitors(f string, req M, r string, before, after map[string]any, 
 				e.viol("C25", "outside-subject", "recovery/upgrade created state outside the subject client's store", M{"key": Hex([]byte(k)), "op": f})
 			}
 		}
+	}
+}
+
+func (e *Env) acceptMonitor(cid string, hdr M, valid bool, cons map[string]string, what string) {
+	tc, ok := cons[fS(hdr, "trusted")]
+	if !ok {
+		e.viol("C24", "accept-unknown-trusted", what+" accepted although no consensus state is stored at its trusted height", M{"client": cid, "trusted": fS(hdr, "trusted")})
+		return
+	}
+	nvh := strings.Split(tc, "|")[2]
+	if tv, _ := hdr["tvals"].(string); tv != nvh {
+		e.viol("C24", "accept-wrong-trusted-validators", what+" accepted although its trusted validators do not hash to the trusted next-validators hash", M{"client": cid, "tvals": hdr["tvals"], "nvh": nvh})
+	}
+	hh, _ := parseHK(fS(hdr, "height"))
+	th, _ := parseHK(fS(hdr, "trusted"))
+	if !th.less(hh) {
+		e.viol("C24", "accept-height", what+" accepted although it is not strictly above its trusted height", M{"client": cid, "height": fS(hdr, "height"), "trusted": fS(hdr, "trusted")})
+	}
+	if what == "header" && hh.rev != th.rev {
+		e.viol("C24", "accept-revision", what+" accepted although it is in another revision than its trusted height", M{"client": cid, "height": fS(hdr, "height"), "trusted": fS(hdr, "trusted")})
+	}
+	if !valid {
+		e.viol("C24", "accept-unverified", what+" accepted although CometBFT's verification of it fails", M{"client": cid, "height": fS(hdr, "height")})
 	}
 }
 
